@@ -145,7 +145,8 @@ def c12(work, tier, seed):
 
 AUTHZ = ["absent", "empty", "bare-ntlm", "bare-negotiate", "bare-basic", "trunc-scheme", "embedded-scheme", "wrongcase-basic", "wrongcase-ntlm", "basic-right", "basic-right-colonpw",
          "basic-wrongpw", "basic-wrongpw-nonutf8", "basic-user-nonutf8", "basic-wrong-while-right-in-flight", "basic-right-while-wrong-in-flight", "basic-unknown", "basic-emptyuser", "basic-nocolon", "basic-notbase64", "basic-locked", "two-invalid", "two-valid-first", "two-good-then-otheruser", "two-wrong-then-good", "three-good-then-others", "ntlm-right", "negotiate-ntlm-right",
-         "ntlm-wrongpw", "ntlm-unknown", "ntlm-two-conns", "ntlm-auth-first", "ntlm-garbage", "negotiate-krb-garbage"]
+         "ntlm-wrongpw", "ntlm-unknown", "ntlm-two-conns", "ntlm-auth-first", "ntlm-garbage", "negotiate-krb-garbage",
+         "krb-right", "krb-expired", "krb-notyet", "krb-wrongkey", "krb-otherservice", "krb-expired-4min"]
 METHODS = ["RDG_OUT_DATA", "RDG_IN_DATA", "GET", "POST", "PUT", "OPTIONS"]
 
 
